@@ -243,7 +243,7 @@ pub fn gen_tf(r: &mut Rng) -> J {
         let mut e = Vec::new();
         match r.below(10) {
             0 => {}
-            1 => e.push(("address".to_string(), J::Str(format!("nodot{i}")))),
+            1 | 3 => e.push(("address".to_string(), J::Str(format!("nodot{i}")))),
             2 => e.push(("address".to_string(), J::Int(i as i64))),
             _ => e.push(("address".to_string(), J::Str(format!("{ty}.r{i}")))),
         }
